@@ -159,6 +159,7 @@ func runC14(ctx *report.Ctx) {
 					next = nil
 					break
 				}
+				ctx.Progress.Add(1) // the search is alive (the hang watchdog looks at this counter)
 				lp := replayHist(nd.hist)
 				key := dump.String(lp)
 				if seen[key] {
@@ -260,4 +261,20 @@ func runC14(ctx *report.Ctx) {
 				Extra: map[string]any{"scripts": []string{"title: A\n---\n" + strings.Join(src, "\n") + "\n===\n"}}})
 		}
 	})
+}
+
+// C14AllLines returns the thorough line alphabet (debugging aid).
+func C14AllLines() []string {
+	lines := c14Lines()
+	seen := map[string]bool{}
+	for _, l := range lines {
+		seen[l] = true
+	}
+	for _, l := range c14GeneratedLines() {
+		if !seen[l] {
+			seen[l] = true
+			lines = append(lines, l)
+		}
+	}
+	return lines
 }
